@@ -7,7 +7,7 @@ From RaftLog Require Import Base.Bytes Base.Crc32 Model.Types Model.Codec Model.
 Extraction Language OCaml.
 Extraction "model.ml"
   enc_record dec_record rec_size crc32
-  run_case run_ops open_dir worker_idle scan_file disk_get
+  run_case run_ops open_dir worker_idle scan_file disk_get do_dump_iter
   spec0 spec_apply spec_step spec_read spec_state write_legal swrites_of
   spec_wop wop_legal
   zstep zinit sys2_of process_crash_image
